@@ -4,7 +4,7 @@
 # passes without), then applies it to /repo, runs the given checks (quick) and undoes it.
 set -u
 id=$1; v=$2; pkg=$3; shift 3
-src=/tmp/seed_${id}_out/$v
+src=/tmp/${SEEDPFX:-seed}_${id}_out/$v
 out=/verif/seeded/${id}${v}
 export GOFLAGS=-mod=mod GOPROXY=off GOSUMDB=off GOTOOLCHAIN=local
 wt=/tmp/evalwt_${id}${v}
